@@ -33,6 +33,7 @@ func FamilySignature(thorough bool) []*Conv {
 		add("context_only", f, "ctxA PFXIn", "PFXOut", "", []string{"arg:context:regex ^ctx"}, nil, "no source parameter (the only parameter is a context)")
 		add("default_two_sources", f, "source *PFXIn", "*PFXOut", "func PFXNew2(a *PFXIn, b *PFXIn) *PFXOut { return &PFXOut{} }\n", nil, []string{"default PFXNew2"}, "default function with two source parameters")
 		add("extend_no_result", f, "source PFXIn", "PFXOut", "func PFXNoRes(i int) {}\n", []string{"extend PFXNoRes"}, nil, "extend function without result")
+		add("generic_converter_interface", f, "source PFXIn", "PFXOut", "// goverter:converter\ntype PFXGeneric[T any] interface {\n\tConvert(source T) PFXOut\n}\n", nil, nil, "converter interface with type parameters")
 		add("extend_generic", f, "source PFXIn", "PFXOut", "func PFXGen[T any](i T) T { return i }\n", []string{"extend PFXGen"}, nil, "generic extend function")
 	}
 	return out
